@@ -151,7 +151,15 @@ pub fn generate(repo: &PathBuf) -> Result<String, String> {
     let cg = impl_fn(&node, "Node", None, "calculate_get_closest_peers")?;
     let mut cm = Cmps { ops: vec![] };
     cm.visit_block(&cg.block);
-    let cl = cm.ops.first().ok_or("calculate_get_closest_peers: no comparison")?;
+    // the one comparison of a converted distance with the requested range (any other comparison in the function is not it)
+    let cls: Vec<&(String, String)> = cm.ops.iter().filter(|(_, t)| t.contains("convert_distance_to_u256")).collect();
+    if cls.len() != 1 {
+        return Err(format!("calculate_get_closest_peers: expected exactly one comparison of convert_distance_to_u256(..) with the range, found {}", cls.len()));
+    }
+    let cl = cls[0];
+    if !cl.1.replace(' ', "").starts_with("convert_distance_to_u256(") {
+        return Err(format!("calculate_get_closest_peers: the converted distance is not the left operand in `{}`", cl.1));
+    }
     let closest_le = match cl.0.as_str() {
         "<=" => true,
         "<" => false,
